@@ -29,6 +29,10 @@ def check(ctx):
     check_getters(ctx, F, R)
     check_maplike_impl(ctx, F)
     check_writers(ctx, F, R)
+    # "a later return blends afresh": a blend replaces any earlier start override instead of merging with it, and never
+    # touches the configured frames (C09/R4)
+    from rules import c09
+    c09.rule_override(ctx, F, "R9")
     ctx.notes.append("not decided: the values themselves (float results of timeline evaluation)")
     ctx.assumptions += ["the decision table is the complete transition relation of the animator: R8 shows no other "
                         "function writes its fields", "MapLike contract as in C04"]
